@@ -46,6 +46,13 @@ main(void)
 #endif
 	ASSUME(n <= sizeof chunk);
 	c.err = err;
+	/* status fields a push function might (wrongly) look at are explicit symbolic inputs, so that a
+	   counterexample replays natively (the rest of the context is unconstrained under CBMC, zero natively) */
+#if defined(C05_KEY_pkey) || defined(C05_KEY_skey)
+	c.key_type = ND_U8();
+#elif defined(C05_KEY_x509dec)
+	c.decoded = ND_U8();
+#endif
 	PUSH(&c, chunk, n);
 	if (err != 0) {
 		CHECK(run_calls == 0, "the coroutine is not resumed once the decoder has failed (err != 0)");
